@@ -2,6 +2,8 @@ package main
 
 import (
 	"fmt"
+	"io"
+	"log/slog"
 	"path/filepath"
 	"sort"
 
@@ -102,6 +104,16 @@ func genScenario(c *lib.Ctx) scenario {
 
 func c13Case(c *lib.Ctx) {
 	sc := genScenario(c)
+	if c.R.Intn(3) == 0 {
+		// a slow log sink: a seeded fraction of the store's log calls (all levels) yields or sleeps for a moment, so
+		// its asynchronous publication / cleanup / notification goroutines overtake each other at those points too
+		lag := lib.NewLagLogHandler(c.R.Int63(), lib.Pick(c.R, []int{20, 50}))
+		slog.SetDefault(slog.New(lag))
+		defer func() {
+			slog.SetDefault(slog.New(slog.NewTextHandler(io.Discard, nil)))
+			c.Feat("store_log_calls_delayed", lag.Lags.Load())
+		}()
+	}
 	runScenario(c, sc)
 }
 
